@@ -492,6 +492,10 @@ BRACKET_TEMPLATES += [
      + ' { say "a"; }\u00a6 },\u00a6 interval=0.1,\u00a6 maxIter=5\u00a6);'),
     ("nested-list-in-list", "body", 'Text.tellraw(@a, [\u00a6"a",\u00a6 ' + BO + '[\u00a61,\u00a6 zzq\u00a6]' + BC + '\u00a6]);'),
     ("nested-switch-in-case", "body", 'switch ($s) {\u00a6 case 1:\u00a6 switch ($t) ' + BO + '{\u00a6}' + BC + '\u00a6 }'),
+    # the other kind of token that spans several lines: a backtick string (valid only with its text on lines of its own)
+    ("btick-argument", "body", 'Timer.set(t, @s, ' + BO + '`\u00a6abc\u00a6`' + BC + ');'),
+    ("btick-condition", "body", 'if (' + BO + '`\u00a6abc\u00a6`' + BC + ') { say "a"; }'),
+    ("btick-nested", "body", 'Timer.set(\u00a6t,\u00a6 @s,\u00a6 ' + BO + '`\u00a6abc\u00a6`' + BC + '\u00a6);'),
 ]
 BRACKET_LAYOUTS = ("flat", "lines", "tabs", "open", "close", "crlf", "gap")
 BRACKET_CHAINS = {
@@ -962,7 +966,9 @@ def main(tier: str) -> int:
                 continue
             e = ems[-1]
             ty, tl_, tc_, tstr, _q = e["token"]
-            if tstr != j["bracket"] or not (ty.startswith("PAREN") or ty == "FUNC"):
+            # (a backtick string: the token holds the decoded text; its quote attribute is lost when parse_func_args rebuilds the token)
+            is_btick = ty == "STRING" and j["bracket"].startswith("`") and tstr.strip() != "" and tstr.strip() in j["bracket"]
+            if not is_btick and (tstr != j["bracket"] or not (ty.startswith("PAREN") or ty == "FUNC")):
                 br["other_token"] += 1
                 continue
             br["about_bracket"] += 1
